@@ -3,6 +3,7 @@ package main
 import (
 	"encoding/json"
 	"fmt"
+	"reflect"
 	"strconv"
 	"strings"
 	"unsafe"
@@ -171,6 +172,19 @@ func c02One(c *Ctx, i int, doc string, off int) {
 			err = cfg.UnmarshalFromString(s, &mp)
 			if err == nil && !d.sok {
 				c.Violate(i, api+"map", "accepted a structurally malformed document", q(doc))
+			}
+			// maps whose element decoders are compiled inline and are of different sizes (slices, maps,
+			// structs, pointers): the per-pair separator handling belongs to the map program
+			for _, dst := range []interface{}{new(map[string][]int), new(map[string]map[string][]interface{}), new(map[string]struct {
+				A int
+				B string
+				C []int
+				D map[string]int
+			}), new(map[string]*[]string), new([]map[string][]float64), new(map[int][]interface{})} {
+				err = cfg.UnmarshalFromString(s, dst)
+				if err == nil && !d.sok {
+					c.Violate(i, api+fmt.Sprintf("%T", dst), "accepted a structurally malformed document", q(doc))
+				}
 			}
 		}
 	})
@@ -554,7 +568,7 @@ func runC02(c *Ctx) {
 				// document is still structurally malformed and must be rejected
 				if qs := strings.Index(base, `"`); qs >= 0 {
 					if k := qs + 1 + r.Intn(len(base)-qs); k < len(base) && base[k] != '"' && base[k] != '\\' && base[k-1] != '\\' && base[k] >= 0x20 {
-						inStr := strings.Count(base[:k], `"`)-strings.Count(base[:k], `\\"`) // rough: an odd count means inside a literal
+						inStr := strings.Count(base[:k], `"`) - strings.Count(base[:k], `\\"`) // rough: an odd count means inside a literal
 						if inStr%2 == 1 {
 							base = base[:k] + "\xff" + base[k+1:]
 						}
@@ -587,6 +601,94 @@ func runC02(c *Ctx) {
 			c.Count("docs_malformed", 1)
 		}
 		c.Sample(kind, 2, q(doc))
+	}
+	// Part 4: documents shaped like their typed destination (so that every value is stored by the
+	// compiled element/field decoders, not skipped) with one separator defect
+	shapes := []reflect.Type{reflect.TypeOf(map[string][]int(nil)), reflect.TypeOf(map[string]map[string][]string(nil)), reflect.TypeOf(map[string]struct {
+		A int
+		B string
+		C []int
+		D map[string]int
+	}(nil)), reflect.TypeOf(map[string]*[]string(nil)), reflect.TypeOf([]map[string][]float64(nil)), reflect.TypeOf(map[int32][]bool(nil)),
+		reflect.TypeOf([][]map[string]int(nil)), reflect.TypeOf(c02Struct{}), reflect.TypeOf(map[string]c02Struct(nil)), reflect.TypeOf([]c02Struct(nil)), reflect.TypeOf(map[string][2][]int(nil))}
+	NS := c.N(4000, 100000)
+	for k := 0; k < NS; k++ {
+		i, run, stop := next()
+		if stop {
+			return
+		}
+		if !run {
+			continue
+		}
+		r := c.Rng(i)
+		t := shapes[r.Intn(len(shapes))]
+		vo := gen.ValOpts{MaxLen: 3, NilChance: 1000}
+		jb, jerr := json.Marshal(r.Value(t, &vo, 0).Interface())
+		if jerr != nil {
+			continue
+		}
+		doc := string(jb)
+		pick := func(set string) int {
+			var at []int
+			inStr := false
+			for p := 0; p < len(doc); p++ {
+				switch {
+				case doc[p] == '\\' && inStr:
+					p++
+				case doc[p] == '"':
+					inStr = !inStr
+				case !inStr && strings.IndexByte(set, doc[p]) >= 0:
+					at = append(at, p)
+				}
+			}
+			if len(at) == 0 {
+				return -1
+			}
+			return at[r.Intn(len(at))]
+		}
+		defect := r.Intn(6)
+		switch defect {
+		case 0: // a comma before a closer
+			if p := pick("}]"); p >= 0 {
+				doc = doc[:p] + []string{",", " , ", ",\n"}[r.Intn(3)] + doc[p:]
+			}
+		case 1: // a comma behind an opener
+			if p := pick("{["); p >= 0 {
+				doc = doc[:p+1] + "," + doc[p+1:]
+			}
+		case 2: // a doubled comma
+			if p := pick(","); p >= 0 {
+				doc = doc[:p] + "," + doc[p:]
+			}
+		case 3: // a missing comma
+			if p := pick(","); p >= 0 {
+				doc = doc[:p] + " " + doc[p+1:]
+			}
+		case 4: // a comma for a colon
+			if p := pick(":"); p >= 0 {
+				doc = doc[:p] + "," + doc[p+1:]
+			}
+		default: // unchanged: must be accepted
+		}
+		sok, valid := ref.StructOK(doc), json.Valid([]byte(doc))
+		c.Guard(i, "Unmarshal(shaped)", func() {
+			for kc, cfg := range []sonic.API{sonic.ConfigDefault, sonic.ConfigStd} {
+				api := []string{"Unmarshal", "ConfigStd.Unmarshal"}[kc] + "(" + trunc(t.String(), 60) + ")"
+				dst := reflect.New(t)
+				err := cfg.UnmarshalFromString(doc, dst.Interface())
+				if err == nil && !sok {
+					c.Violate(i, api, "accepted a structurally malformed document", q(doc))
+				}
+				if err != nil && valid {
+					c.Violate(i, api, "rejected a document shaped like its destination that encoding/json.Valid accepts", map[string]string{"doc": q(doc), "err": errStr(err)})
+				}
+			}
+		})
+		c.Distinct(gen.HashString(t.String()+doc), true)
+		c.Count("docs_shaped_like_a_typed_destination", 1)
+		if !sok {
+			c.Count("docs_shaped_with_a_separator_defect", 1)
+		}
 	}
 	// Part 3: deep nesting around the documented limit
 	for _, depth := range []int{4094, 4095, 4096, 4097, 5000, 9999, 10001} {
